@@ -91,10 +91,14 @@ REJECT = {
     'mixed_add': "def f(a, n):\n    return a + n\n",
     'undeclared_none': "def f(a):\n    x = None\n    return a\n",
     'try': "def f(a):\n    try:\n        a += a\n    except Exception:\n        a = a\n    return a\n",
+    'str_of_object': "def f(o):\n    return str(o)\n",
+    'try_assign': "def f(o):\n    try:\n        x = str(o)\n    except Exception:\n        x = ''\n    return x\n",
+    'try_narrow_handler': "def f(o):\n    try:\n        return str(o)\n    except ValueError:\n        pass\n    return ''\n",
+    'try_finally': "def f(o):\n    try:\n        return str(o)\n    except Exception:\n        pass\n    finally:\n        pass\n    return ''\n",
     'kwargs_call': "def f(a):\n    return '{}'.format(a, x=a)\n",
     'default_param': "def f(a=''):\n    return a\n",
 }
-REJECT_TYPES = {'a': 'Str', 'n': 'Int', 'xs': 'List Str', 'd': 'FrameD', 'c': 'Callpoint'}
+REJECT_TYPES = {'o': 'StrObj', 'a': 'Str', 'n': 'Int', 'xs': 'List Str', 'd': 'FrameD', 'c': 'Callpoint'}
 
 
 def reject_tests(verbose):
@@ -141,6 +145,12 @@ def callpoints(rng):
 
 
 _DL_COUNT = [0]
+_EXC_KINDS = [ValueError, KeyError, RuntimeError, TypeError, ZeroDivisionError, UnicodeError, Exception]
+
+
+def rng_exc():
+    _DL_COUNT[0] += 1
+    return _EXC_KINDS[_DL_COUNT[0] % len(_EXC_KINDS)]('str failed')
 
 
 def real_callpoint(mod, cp):
@@ -172,6 +182,8 @@ def cases_for(spec, rng, quick):
             yield {'module': rng.choice(['__main__', 'builtins', '', 'pkg.mod', '__main__x', 'Builtins', None, 5,
                                          rstr(rng, 0, 6)]),
                    'qualname': rng.choice(['E', 'Outer.Inner', 'f.<locals>.E', rstr(rng, 0, 6)])}
+        elif q == '_some_str':
+            yield {'value': rng.choice([None, None, '', rstr(rng, 0, 9)])}       # None: `__str__` raises
         elif q == 'sn_swap':
             yield {'a': rstr(rng, 0, 4), 'b': rstr(rng, 0, 4), 'n': rng.randint(-3, 6)}
         elif q == 'sn_loop':
@@ -207,6 +219,8 @@ def encode(spec, case):
         return toks
     if q == 'ExceptionInfo.from_exc_info':
         return [enc_os(case['module'] if isinstance(case['module'], str) else None), enc_s(case['qualname'])]
+    if q == '_some_str':
+        return [enc_os(case['value'])]
     if q == 'sn_swap':
         return [enc_s(case['a']), enc_s(case['b']), str(case['n'])]
     if q == 'sn_loop':
@@ -252,6 +266,13 @@ def run_python(mod, sn_mod, spec, case):
                 raise cls('x')
             except cls:
                 return mod.ExceptionInfo.from_exc_info(*sys.exc_info()).exc_type
+        if q == '_some_str':
+            class Obj:
+                def __str__(self_):
+                    if case['value'] is None:
+                        raise rng_exc()
+                    return case['value']
+            return mod._some_str(Obj())
         return getattr(sn_mod, q)(**case)
     except Exception as e:       # the generated definitions are total: a raise is a mismatch
         return 'RAISED %r' % (e,)
@@ -331,6 +352,8 @@ ARMS = {
     if r.isEmpty then some (Src.%s.%s (← decS a) (← decS b) fs) else none
 ''',
     'ExceptionInfo.from_exc_info': '''  | ["%d", m, q] => do some (Src.%s.%s ⟨← decOS m, ← decS q⟩)
+''',
+    '_some_str': '''  | ["%d", v] => do some (Src.%s.%s ⟨← decOS v⟩)
 ''',
     'sn_swap': '''  | ["%d", a, b, n] => do some (Src.%s.%s (← decS a) (← decS b) (← n.toInt?))
 ''',
